@@ -502,6 +502,55 @@ fn sub_negative(input: &[u8], st: &mut Stats) -> R {
     Ok(())
 }
 
+/// `long-strings`: a well-formed module with one string-bearing instruction whose literal string has
+/// 65 530 - 262 131 bytes (the declared word count allows up to 65 535 words), intact, with a
+/// surplus word, or cut; the grammar puts no bound on a string other than the word count.
+fn sub_long_strings(input: &[u8], st: &mut Stats) -> R {
+    let mut cs = Cs::new(input);
+    // (opcode, words before the string)
+    let (opname, opcode, lead): (&str, u32, Vec<u32>) = match cs.below(5) {
+        0 => ("String", 7, vec![9]),
+        1 => ("Name", 5, vec![9]),
+        2 => ("Extension", 10, vec![]),
+        3 => ("SourceExtension", 4, vec![]),
+        _ => ("ModuleProcessed", 330, vec![]),
+    };
+    let unit: &str = ["s", "\u{e9}", "\u{20ac}", "ab"][cs.below(4)];
+    let max_bytes = (65_535 - 1 - lead.len() - 1) * 4 + 3;
+    let nbytes = match cs.below(4) {
+        0 => 65_528 + cs.below(16),
+        1 => [65_535usize, 65_536, 65_537, 100_000, 131_072, 200_001][cs.below(6)],
+        2 => max_bytes - cs.below(9),
+        _ => (65_536 * unit.len() + cs.below(8)).min(max_bytes),
+    };
+    let mut body = unit.repeat(nbytes / unit.len() + 1).into_bytes();
+    body.truncate(nbytes - nbytes % unit.len());
+    let text = String::from_utf8(body).unwrap();
+    let mut inst: Vec<u32> = vec![0];
+    inst.extend(&lead);
+    inst.extend(str_words(&text));
+    let variant = cs.below(4);
+    if variant == 1 {
+        inst.push(0x41414141); // a surplus word inside the declared count
+    }
+    if inst.len() > 65_535 {
+        inst.truncate(65_535); // cannot be declared: keep the case inside the 16-bit count (cuts the padding / the string)
+    }
+    inst[0] = ((inst.len() as u32) << 16) | opcode;
+    let mut w = header_words((1, 3), 100);
+    w.extend([0x0002_0011, 1]); // OpCapability Shader
+    w.extend(&inst);
+    w.extend([0x0003_000e, 0, 1]); // OpMemoryModel Logical GLSL450
+    let mut bytes = words_to_bytes(&w);
+    if variant == 2 {
+        let cut = 28 + cs.below(bytes.len() - 28);
+        bytes.truncate(cut);
+    }
+    st.count("long_string_modules");
+    st.nontrivial(hash64(&bytes[..64.min(bytes.len())]) ^ bytes.len() as u64);
+    check_bytes(&bytes, st, &|| format!("Op{} with a literal string of {} bytes (unit {:?}), variant {}", opname, text.len(), unit, ["intact", "surplus word", "cut", "intact"][variant])).map(|_| ())
+}
+
 pub const SUBS: &[Sub] = &[
     Sub {
         name: "negative-sweep",
@@ -519,6 +568,10 @@ pub const SUBS: &[Sub] = &[
         name: "edge-ids",
         f: sub_edge_ids,
     },
+    Sub {
+        name: "long-strings",
+        f: sub_long_strings,
+    },
 ];
 
 pub fn run(ctx: &Ctx) {
@@ -527,6 +580,7 @@ pub fn run(ctx: &Ctx) {
     drive_enum(ctx, &SUBS[1], ctx.n(60, 30_000));
     drive_random(ctx, &SUBS[2], ctx.n(40_000, 20_000_000), 1200);
     drive_random(ctx, &SUBS[3], ctx.n(10_000, 5_000_000), 4000);
+    drive_random(ctx, &SUBS[4], ctx.n(40, 4_000), 64);
     if !ctx.quick() && !ctx.failed() {
         crate::fuzzing::drive_fuzz(ctx, "bytes", 500_000);
     }
